@@ -313,7 +313,15 @@ def tlc_expect_ok(r, what):
 
 
 def _scratch():
-    d = os.path.join(CACHE, "scratch")
+    """scratch space for traces and TLC metadata: tmpfs when available (directory operations on the
+    disk file system cost milliseconds each under load), else /verif/.cache/scratch"""
+    shm = "/dev/shm"
+    if os.environ.get("VERIF_SCRATCH"):
+        d = os.environ["VERIF_SCRATCH"]
+    elif os.path.isdir(shm) and os.access(shm, os.W_OK):
+        d = os.path.join(shm, "verif-scratch-%d" % os.getuid())
+    else:
+        d = os.path.join(CACHE, "scratch")
     os.makedirs(d, exist_ok=True)
     return d
 
